@@ -5,6 +5,7 @@
 #  * public domain *
 #
 
+import itertools
 from typing import List
 
 
@@ -30,9 +31,13 @@ def rldecode(data: bytes) -> bytes:
             break
 
         if 0 <= length < 128:
-            decoded_array.extend((next(data_iter) for _ in range(length + 1)))
+            # A truncated literal run yields the bytes that are there.
+            decoded_array.extend(itertools.islice(data_iter, length + 1))
 
         if length > 128:
-            run = [next(data_iter)] * (257 - length)
-            decoded_array.extend(run)
+            value = next(data_iter, None)
+            if value is None:
+                # truncated: the repeated byte is missing
+                break
+            decoded_array.extend([value] * (257 - length))
     return bytes(decoded_array)
